@@ -83,12 +83,46 @@ fn replay_one(args: &[String]) {
     println!("{}", serde_json::to_string_pretty(&res).unwrap());
 }
 
+/// crashimg --in <ndjson> --out <ndjson> [--shard i --of n] [--variants ..]: B3 crash images
+fn crashimg(args: &[String]) {
+    let input = arg(args, "--in").expect("--in");
+    let output = arg(args, "--out").expect("--out");
+    let shard: usize = arg(args, "--shard").map(|s| s.parse().unwrap()).unwrap_or(0);
+    let of: usize = arg(args, "--of").map(|s| s.parse().unwrap()).unwrap_or(1);
+    let skip: usize = arg(args, "--skip").map(|s| s.parse().unwrap()).unwrap_or(0);
+    let variants: Vec<usize> = arg(args, "--variants")
+        .map(|s| s.split(',').map(|x| x.parse().unwrap()).collect())
+        .unwrap_or_else(|| vec![0]);
+    let cfg = cfg_from_args(args);
+    let f = std::io::BufReader::new(std::fs::File::open(&input).expect("open input"));
+    let mut out = std::fs::OpenOptions::new().create(true).append(true).open(&output).expect("open output");
+    for (i, line) in f.lines().enumerate() {
+        let line = line.unwrap();
+        if i % of != shard || i < skip {
+            continue;
+        }
+        let b: hist::Behaviour = serde_json::from_str(&line).expect("behaviour json");
+        writeln!(out, "{}", json!({"idx": i, "begin": true})).unwrap();
+        out.flush().unwrap();
+        for &v in &variants {
+            let variant = v + i;
+            let deep: usize = arg(args, "--deep-every").map(|s| s.parse().unwrap()).unwrap_or(7);
+            let rep = lvh::crash::run(&b, variant, &cfg, deep);
+            writeln!(out, "{}", json!({"idx": i, "variant": variant, "images": rep.images, "depth2_images": rep.depth2_images,
+                "inside_op_images": rep.inside_op_images, "effects": rep.effects, "violations": rep.violations})).unwrap();
+        }
+        out.flush().unwrap();
+    }
+    writeln!(out, "{}", json!({"shard_done": shard})).unwrap();
+}
+
 fn main() {
     lvh::util::quiet_panics();
     let args: Vec<String> = std::env::args().collect();
     match args.get(1).map(|s| &s[..]) {
         Some("replay-hist") => replay_hist(&args[2..]),
         Some("replay-one") => replay_one(&args[2..]),
+        Some("crashimg") => crashimg(&args[2..]),
         _ => {
             eprintln!("usage: lvh <replay-hist> ...");
             std::process::exit(2);
